@@ -7,6 +7,8 @@ C13-b  count consistency: every success exit of index_read lies on an equality e
 C13-c  layout agreement: the ordered field sequences of the reader (read_lead, read_preface, index_read,
        read_sig), of the writer (lead_create, preface_create, index_create, sig_create) and of the
        specification table are equal.
+C13-g  no comparison in the header/index parsers, the integer codec or zck_read_header narrows an operand
+       before comparing it (a count equal to the real one modulo 2^32 would pass the count gate).
 C13-d  narrowing: compint_to_int rejects values above INT_MAX (C20-c); limits are 64 bit (C03-b).
 C13-e  offsets: in index_read a chunk's start is the running sum of the stored sizes of its predecessors.
 C13-f  flag word: get_flags() inverts check_flags() for every accepted flag word (interval interpretation
@@ -352,6 +354,11 @@ def run(ctx):
         # the parsers reject sizes that do not fit what is left of the header, without wrap-around (C03-a rule)
         from . import c03
         c03.cursor_clauses(ck, prog, config, ca='C13-d', cb='C13-d')
+        # ---- g  no gate of the parsers compares a narrowed value
+        from ..rules import extra
+        extra.check_narrow_compare(ck, prog, config, 'C13-g', ('src/lib/header.c', 'src/lib/index/index_read.c',
+                                                                'src/lib/compint.c', 'src/lib/index/index_common.c',
+                                                                'src/zck_read_header.c'))
         # ---- e
 
         class Off(SymRule):
@@ -409,7 +416,7 @@ def run(ctx):
 CLAIM = {
     'technique': 'table extraction and comparison (getter return forms; reader / writer / specification field '
                  'sequences), guard typestate for the count equality, linear offsets, interval interpretation of the '
-                 'flag word',
+                 'flag word, narrowed-operand lint over every comparison of the parsers',
     'text': 'static analysis: decides C13-a..f (mechanism) - every metadata getter returns the field it names; reader, '
             'writer and the transcribed specification agree on the ordered field sequence of lead, preface, index and '
             'signatures; a successful index parse has compared its entry count with the file\'s; chunk starts are the '
@@ -419,6 +426,9 @@ CLAIM = {
 }
 
 MUTANTS = [
+    {'id': 'm13g', 'desc': 'count gate compares after narrowing to int (seeded c13r4)', 'file': 'src/lib/index/index_read.c',
+     'old': 'if((size_t)count != index_count) {', 'new': 'if(count != (int)index_count) {',
+     'expect': 'R9.narrow-compare index_read'},
     {'id': 'm48', 'desc': 'count comparison removed', 'file': 'src/lib/index/index_read.c',
      'old': 'if((size_t)count != index_count) {', 'new': 'if((size_t)count > index_count + 1000) {',
      'expect': 'R2.guard index_read'},
